@@ -710,10 +710,10 @@ def c11(ck):
     def mutrw(rows_):
         n = 0
         for r_ in rows_:
-            if r_["ev"] == "re" and r_["val"] > 3:
+            if r_["ev"] == "re":
                 n += 1
                 if n == 5:
-                    r_["val"] -= 3
+                    r_["val"] = 99      # a definition that was never made
                     return True
         return False
     ck.extra["selftest_corrupted_globals_trace_rejections"] = corrupt_selftest(ck, "TraceRW", rw, mutrw)
